@@ -1,5 +1,6 @@
 import Holpy.C18.ProofsRes
 import Holpy.C18.ProofsHyps
+import Holpy.C18.ProofsEq
 namespace Holpy.C18
 open Tm
 
@@ -9,6 +10,9 @@ theorem evalRule_sound' (I : Interp) (hI : I.LeOrder) (r : Rule) (cl : List Tm) 
   cases r <;> simp only [evalRule] at h
   case thResolution => exact thResolution_sound I _ _ _ _ h hp
   case eqReflexive => exact eqReflexive_sound I _ _ h
+  case eqTransitive => exact eqTransitive_sound I _ _ h (by simp only [wellKinded] at hk ⊢; exact hk)
+  case transRule => exact transRule_sound I _ _ _ h hk hp
+  case eqCongruent => exact eqCongruent_sound I _ _ h (by simp only [wellKinded] at hk ⊢; exact hk)
   case laDisequality => exact laDisequality_sound I hI _ _ h (by
     cases cl with
     | nil => simp [laDisequality] at h
@@ -79,8 +83,11 @@ theorem evalRule_hyps' (r : Rule) (cl : List Tm) (sizes : List Nat) (ps : List S
   case notIte1 => exact notIte1_hyps _ _ _ h
   case notIte2 => exact notIte2_hyps _ _ _ h
   case contraction => exact contraction_hyps _ _ _ h
+  case transRule => exact transRule_hyps _ _ _ h
   all_goals (intro x hx; exfalso)
   case eqReflexive => simp [eqReflexive_hyps _ _ h] at hx
+  case eqTransitive => simp [eqTransitive_hyps _ _ h] at hx
+  case eqCongruent => simp [eqCongruent_hyps _ _ h] at hx
   case laDisequality => simp [laDisequality_hyps _ _ h] at hx
   case laRwEq => simp [laRwEq_hyps _ _ h] at hx
   case notNot => simp [notNot_hyps _ _ h] at hx
@@ -164,5 +171,29 @@ theorem runProof_inv (I : Interp) (hI : I.LeOrder) (A : List Tm) (cmds : List Cm
                 obtain ⟨p, hp, hxp⟩ := evalRule_hyps' r cl sizes ps _ hs x hx
                 exact (hacc p (hmem p hp)).2 x hxp
             · exact fun t' ht' => hA t' (by simpa [assumptions] using ht')
+
+/-- the run with the `wellKinded` test accepts only what the plain run accepts, with the same result -/
+theorem runProof_raw (cmds : List Cmd) (acc res : List Seq) (h : runProof cmds acc = .ok res) :
+    runProofRaw cmds acc = .ok res := by
+  induction cmds generalizing acc with
+  | nil => simpa [runProof, runProofRaw] using h
+  | cons c rest ih =>
+    cases c with
+    | assume t => simp only [runProof] at h; simp only [runProofRaw]; exact ih _ h
+    | step r cl sizes prems =>
+      simp only [runProof] at h
+      simp only [runProofRaw]
+      split at h
+      · contradiction
+      · rename_i ps hps
+        split at h
+        · contradiction
+        · split at h
+          · contradiction
+          · rename_i s hs
+            first
+              | exact ih _ h
+              | (rw [hs]; exact ih _ h)
+              | (simp only [hs]; exact ih _ h)
 
 end Holpy.C18
